@@ -168,17 +168,39 @@ class MatchesSetwise:
         self.matchers = matchers
 
     def match(self, observed):
-        remaining_matchers = set(self.matchers)
-        not_matched = []
-        for value in observed:
-            for matcher in remaining_matchers:
-                if matcher.match(value) is None:
-                    remaining_matchers.remove(matcher)
-                    break
-            else:
-                not_matched.append(value)
+        matchers = list(self.matchers)
+        observed = list(observed)
+        # Pair values with matchers one-to-one. Taking the first matcher that
+        # happens to match is not enough: it may be the only one able to match
+        # a later value, so earlier choices are revised along augmenting paths
+        # (maximum bipartite matching).
+        matcher_of = {}
+        value_of = {}
+
+        def assign(value_index, tried):
+            for matcher_index, matcher in enumerate(matchers):
+                if matcher_index in tried:
+                    continue
+                if matcher.match(observed[value_index]) is not None:
+                    continue
+                tried.add(matcher_index)
+                if matcher_index not in value_of or assign(
+                    value_of[matcher_index], tried
+                ):
+                    value_of[matcher_index] = value_index
+                    matcher_of[value_index] = matcher_index
+                    return True
+            return False
+
+        for value_index in range(len(observed)):
+            assign(value_index, set())
+        not_matched = [
+            value for i, value in enumerate(observed) if i not in matcher_of
+        ]
+        remaining_matchers = [
+            matcher for i, matcher in enumerate(matchers) if i not in value_of
+        ]
         if not_matched or remaining_matchers:
-            remaining_matchers = list(remaining_matchers)
             # There are various cases that all should be reported somewhat
             # differently.
 
